@@ -347,13 +347,14 @@ class SplineGeometry(Geometry):
                 chk_degree.append(tmp)
             if not all(chk_degree):
                 return False
+            tol = 10 ** (-self._precision)  # self._precision is a number of decimal places
             chk_kv = []
             for sk, ok in zip(self._knot_vector, other._knot_vector):
                 if len(sk) != len(ok):
                     return False
                 chk = []
                 for s, o in zip(sk, ok):
-                    tmp = True if abs(s - o) < self._precision else False
+                    tmp = True if abs(s - o) < tol else False
                     chk.append(tmp)
                 chk_kv.append(all(chk))
             if not all(chk_kv):
@@ -364,10 +365,10 @@ class SplineGeometry(Geometry):
                     return False
                 chk = []
                 for s, o in zip(sk, ok):
-                    tmp = True if abs(s - o) < self._precision else False
+                    tmp = True if abs(s - o) < tol else False
                     chk.append(tmp)
                 chk_ctrlpts.append(all(chk))
-            if not all(chk_kv):
+            if not all(chk_ctrlpts):
                 return False
         except Exception:
             return False
